@@ -126,7 +126,7 @@ func PackString(buffer []byte, maxLen uint, input string) (uint, error) {
 
 	if len(encoded) >= int(maxLen) {
 		encoded = encoded[:maxLen]
-		encoded[maxLen] = 0x00
+		encoded[maxLen-1] = 0x00
 	}
 
 	copy(buffer, encoded)
